@@ -26,6 +26,9 @@ func (f *Frame) argVals(cc *ssa.CallCommon) []Val {
 func (f *Frame) call(cc *ssa.CallCommon, in ssa.Instruction, resType types.Type) Val {
 	tr := f.tr
 	if b, ok := cc.Value.(*ssa.Builtin); ok {
+		if tr.contract != nil && len(tr.contract.AtCalls) > 0 {
+			f.atCallAsserts(cc, in, b.Name(), f.argVals(cc))
+		}
 		return f.builtin(b, cc, in, resType)
 	}
 	args := f.argVals(cc)
@@ -1516,6 +1519,10 @@ func (f *Frame) atCallAsserts(cc *ssa.CallCommon, in ssa.Instruction, display st
 		if ac.K != 0 && full != fmt.Sprintf("%s#%d", display, ac.K) {
 			continue
 		}
+		if tr.atMatched == nil {
+			tr.atMatched = map[int]bool{}
+		}
+		tr.atMatched[i] = true
 		env := f.envAt(in.Block())
 		pn, _ := sigNames(cc.Signature(), cc.IsInvoke())
 		off := len(args) - len(pn)
